@@ -38,9 +38,12 @@ TRUSTED = ['extraction of Graph.symbols_to_graph_M / GNorm.neq_wf / neq_text to 
            "CPython's exec of one generated statement as 'an isolated evaluation of the equation'; networkx DiGraph node / edge iteration order"]
 ASSUMPTIONS = ['input strings are Latin-1',
                'theorems speak about normalised equations given as token lists (GNorm.neq); that the equations fsic produces are such '
-               'texts is checked per case by K_domain (re-tokenised witness accepted by the extracted neq_wf, text reproduced exactly), not proved',
+               'texts is checked per case by K_domain (re-tokenised witness accepted by the extracted neq_wf, text reproduced exactly); it is '
+               'proved inside the model for statements written in de-normalised form (C20_reparsed_graph) and for the renderings of all '
+               'Eval statements (C20_rendered_statements_wf)',
                'the link to the evaluation semantics (Eval.eval_expr) is proved for statements rendered by GNorm.rstmt (fully parenthesised)',
-               'conditional expressions read only the selected branch: "every in-edge is read" is observed on at least one of the data vectors there']
+               'conditional expressions read only the selected branch: "every in-edge is read" is proved / observed for conditional-free '
+               'equations, and observed on at least one of three data vectors otherwise']
 EXHAUSTIVE = {'quick': False, 'thorough': False}
 CASE_TIMEOUT = 60
 SOURCES = ['tools.py', 'parser.py']
@@ -354,10 +357,10 @@ FIXED_PROGS = [
 
 def gen(rng, tier):
     cases = [{'k': 's', 's': s, 'seed': 1 + i} for i, s in enumerate(CORPUS)] + [dict(c) for c in FIXED_PROGS]
-    n = 1800 if tier == 'quick' else 30000
+    n = 1800 if tier == 'quick' else 14000
     for i in range(n):
         cases.append(gen_prog(rng, plain=(i % 10 == 0)))
-    m = 500 if tier == 'quick' else 10000
+    m = 500 if tier == 'quick' else 4000
     for _ in range(m):
         s = pc.gen_script(rng)
         cases.append({'k': 's', 's': s, 'seed': rng.randrange(1 << 30)})
